@@ -33,13 +33,14 @@ type CommitRec struct {
 }
 
 type WriteRec struct {
-	Key  string
-	Val  []byte
-	UM   byte
-	Exp  uint64
-	Del  bool
-	Disc bool
-	Ver  uint64 // managed per-entry version; 0 = commit ts
+	Key   string
+	Val   []byte
+	UM    byte
+	Exp   uint64
+	Del   bool
+	Disc  bool
+	Merge bool
+	Ver   uint64 // managed per-entry version; 0 = commit ts
 }
 
 // Model is the MVCC reference: it never forgets a version.
@@ -71,6 +72,26 @@ func (m *Model) AddCommit(c *CommitRec) {
 		}
 		m.Keys[w.Key] = vs
 	}
+}
+
+// AddWrite adds one more write to an already installed commit.
+func (m *Model) AddWrite(c *CommitRec, w WriteRec) {
+	c.Writes = append(c.Writes, w)
+	ts := c.Ts
+	if w.Ver != 0 {
+		ts = w.Ver
+	}
+	v := Version{Ts: ts, Val: w.Val, UM: w.UM, Exp: w.Exp, Del: w.Del, Disc: w.Disc, Merge: w.Merge, Commit: c.ID}
+	vs := m.Keys[w.Key]
+	i := sort.Search(len(vs), func(i int) bool { return vs[i].Ts >= ts })
+	if i < len(vs) && vs[i].Ts == ts {
+		vs[i] = v
+	} else {
+		vs = append(vs, Version{})
+		copy(vs[i+1:], vs[i:])
+		vs[i] = v
+	}
+	m.Keys[w.Key] = vs
 }
 
 // FailCommit removes a commit whose application failed after ts allocation.
